@@ -140,8 +140,11 @@ func model(c Case) (pass bool, listedErr bool) {
 			continue
 		}
 		content, ok := c.Stores[ref]
-		if !ok || content == "" || strings.Contains(content, "E") {
+		if !ok || content == "" || strings.ContainsAny(content, "ES") {
 			return false, true // a listed store of the required type cannot be loaded
+		}
+		if c.RealStore && strings.Contains(content, "l") {
+			return false, true // the directory store refuses a store holding a CA-issued leaf certificate
 		}
 		if strings.ContainsAny(content, "ril") {
 			found = true
@@ -184,9 +187,25 @@ func check(c Case) (string, string, bool) {
 			switch {
 			case content == "":
 				continue // absent store
+			case strings.Contains(content, "S"):
+				// the named store is a symbolic link to a directory that holds the signer's root (a
+				// store of the directory-backed kind must be a real directory: a link is unloadable)
+				target := filepath.Join(root, "elsewhere", typ+"-"+name)
+				os.MkdirAll(target, 0o755)
+				os.WriteFile(filepath.Join(target, "root.pem"), pki.PEM(chain.Root().Cert), 0o644)
+				os.MkdirAll(filepath.Dir(d), 0o755)
+				os.Symlink(target, d)
 			case strings.Contains(content, "E"):
 				os.MkdirAll(d, 0o755)
 				os.WriteFile(filepath.Join(d, "broken.pem"), []byte("this is not a certificate"), 0o644)
+			case strings.Contains(content, "l"):
+				// one bundle file: the other certificates first, the CA-issued leaf last
+				os.MkdirAll(d, 0o755)
+				var bundle []byte
+				for _, cert := range certsFor(strings.ReplaceAll(content, "l", "") + "l") {
+					bundle = append(bundle, pki.PEM(cert)...)
+				}
+				os.WriteFile(filepath.Join(d, "bundle.pem"), bundle, 0o644)
 			default:
 				os.MkdirAll(d, 0o755)
 				for i, cert := range certsFor(content) {
@@ -202,7 +221,7 @@ func check(c Case) (string, string, bool) {
 		for ref, content := range c.Stores {
 			typ, name, _ := strings.Cut(ref, ":")
 			switch {
-			case strings.Contains(content, "E"):
+			case strings.ContainsAny(content, "ES"):
 				mts.Fail(typ, name, errors.New("scripted load error"))
 			case content != "":
 				mts.Put(typ, name, certsFor(content)...)
@@ -336,7 +355,7 @@ func record(rec *stats.Recorder, c Case, pass bool) {
 			}
 			nt = true
 		}
-		if listed[ref] && typ == req && (content == "" || strings.Contains(content, "E")) {
+		if listed[ref] && typ == req && (content == "" || strings.ContainsAny(content, "ES") || (c.RealStore && strings.Contains(content, "l"))) {
 			cl = append(cl, "listed-store-error")
 			nt = true
 		}
@@ -356,6 +375,14 @@ func record(rec *stats.Recorder, c Case, pass bool) {
 	}
 	if c.RealStore {
 		cl = append(cl, "real-directory-store")
+		for ref, content := range c.Stores {
+			if listed[ref] && strings.Contains(content, "S") {
+				cl = append(cl, "listed-store-is-symlink")
+			}
+			if listed[ref] && strings.Contains(content, "l") {
+				cl = append(cl, "listed-store-bundle-ends-in-leaf")
+			}
+		}
 	}
 	if c.Plugin != "" {
 		cl = append(cl, "verification-plugin="+c.Plugin)
@@ -408,8 +435,8 @@ func TestC03_Placements(t *testing.T) {
 			Level: kit.DrawLevel(rt), Token: rapid.IntRange(0, 3).Draw(rt, "token") == 0}
 		c.RealStore = rapid.IntRange(0, 5).Draw(rt, "realStore") == 0
 		contents := []string{"", "E", "u", "r", "i", "l", "ur", "ru", "il", "uE", "rE"}
-		if c.RealStore { // the directory store only loads CA / self-signed certificates: no leaf placements
-			contents = []string{"", "E", "u", "r", "i", "ur", "ru", "iu", "uE", "rE"}
+		if c.RealStore { // the directory store only loads CA / self-signed certificates: a leaf makes a store unloadable
+			contents = []string{"", "E", "u", "r", "i", "ur", "ru", "iu", "uE", "rE", "S", "S", "ul", "rl", "il"}
 		}
 		for _, ref := range append(append([]string{}, universe...), unlistedStores...) {
 			content := rp.Pick(rt, "content:"+ref, contents...)
